@@ -16,12 +16,22 @@ pub struct C20;
 
 const MODES: &[&str] = &["run", "file", "stdout"];
 const PROGS: &[&str] = &["accepted", "rejected", "fails-assert", "reaches-unreachable"];
+/// `--require M`: a file name with the .lua suffix, a dotted submodule name, a plain name
+const REQUIRES: &[Option<&str>] = &[None, Some("mymod.lua"), Some("pkg.sub"), Some("plain")];
+const MODULE_SRC: &str = "MYMOD_LOADED = true\nreturn {}\n";
+
+/// the module name the emitted `require` must carry: M without a trailing `.lua`
+fn required_name(m: &str) -> String {
+    m.strip_suffix(".lua").unwrap_or(m).to_string()
+}
+
 const FILE_STATES: &[&str] = &["absent", "present", "present-larger", "missing-dir", "readonly-dir", "is-a-directory"];
 
 #[derive(Clone, Debug)]
 struct Cell {
     mode: &'static str,
-    require: bool,
+    /// the M of `--require M` (None: flag absent)
+    require: Option<&'static str>,
     no_std: bool,
     prog: &'static str,
     file_state: &'static str,
@@ -32,15 +42,15 @@ fn cells() -> Vec<Cell> {
     let mut v = Vec::new();
     for variant in 0..9 {
         for mode in MODES {
-            for require in [false, true] {
+            for require in REQUIRES {
                 for no_std in [false, true] {
                     for prog in PROGS {
                         if *mode == "file" {
                             for fs in FILE_STATES {
-                                v.push(Cell { mode, require, no_std, prog, file_state: fs, variant });
+                                v.push(Cell { mode, require: *require, no_std, prog, file_state: fs, variant });
                             }
                         } else {
-                            v.push(Cell { mode, require, no_std, prog, file_state: "n/a", variant });
+                            v.push(Cell { mode, require: *require, no_std, prog, file_state: "n/a", variant });
                         }
                     }
                 }
@@ -119,9 +129,12 @@ fn judge_cell(c: &Cell, seed: u64, case: u64, st: &mut Stats) {
     let _ = std::os::unix::fs::symlink(lua_bin(), bindir.join("lua"));
     let src = program(c.prog, c.no_std, c.variant, seed);
     let _ = std::fs::write(work.join("prog.sy"), &src);
-    let _ = std::fs::write(work.join("mymod.lua"), "MYMOD_LOADED = true\nreturn {}\n");
+    let _ = std::fs::write(work.join("mymod.lua"), MODULE_SRC);
+    let _ = std::fs::write(work.join("plain.lua"), MODULE_SRC);
+    let _ = std::fs::create_dir_all(work.join("pkg"));
+    let _ = std::fs::write(work.join("pkg/sub.lua"), MODULE_SRC);
     // expected compile result (in process, same flags)
-    let opts = CompileOpts { no_std: c.no_std, require: if c.require { Some("mymod.lua".to_string()) } else { None }, fuel: None };
+    let opts = CompileOpts { no_std: c.no_std, require: c.require.map(|m| m.to_string()), fuel: None };
     let expect = sy::compile_files(&sy::one_file(&src), "main.sy", &opts);
     let compile_ok = expect.is_ok();
     let expected_bytes: Vec<u8> = match &expect {
@@ -135,15 +148,16 @@ fn judge_cell(c: &Cell, seed: u64, case: u64, st: &mut Stats) {
         match lua::load(&text) {
             lua::Loaded::Ok(ch) => {
                 let mut o = lua::run_opts(false);
-                o.modules = vec![("mymod".to_string(), "MYMOD_LOADED = true\nreturn {}\n".to_string())];
+                o.modules = vec![("mymod".to_string(), MODULE_SRC.to_string()), ("plain".to_string(), MODULE_SRC.to_string()), ("pkg.sub".to_string(), MODULE_SRC.to_string())];
                 o.max_steps = 5_000_000;
                 let rr = luamon::run(&ch, &o);
                 // the require contract, observed on the real emitted chunk
-                if c.require {
+                if let Some(m) = c.require {
+                    let want = required_name(m);
                     let reqs = &ch.census.require_calls;
                     let marker = ch.census.marker_line;
                     let first_user_line = text.lines().enumerate().skip(marker as usize).find(|(_, l)| !l.trim().is_empty()).map(|(i, _)| i as u32 + 1).unwrap_or(0);
-                    let ok = reqs.len() == 1 && reqs[0].1 == "mymod" && reqs[0].0 > marker && reqs[0].0 <= first_user_line;
+                    let ok = reqs.len() == 1 && reqs[0].1 == want && reqs[0].0 > marker && reqs[0].0 <= first_user_line;
                     st.count("require_contract_checked");
                     if !ok {
                         st.violation(Violation {
@@ -201,9 +215,9 @@ fn judge_cell(c: &Cell, seed: u64, case: u64, st: &mut Stats) {
         _ => (work.join("out.lua"), None),
     };
     let mut args: Vec<String> = Vec::new();
-    if c.require {
+    if let Some(m) = c.require {
         args.push("--require".into());
-        args.push("mymod.lua".into());
+        args.push(m.into());
     }
     if c.no_std {
         args.push("--no-std".into());
@@ -312,7 +326,7 @@ fn judge_cell(c: &Cell, seed: u64, case: u64, st: &mut Stats) {
                     match lua::load(&String::from_utf8_lossy(bytes)) {
                         lua::Loaded::Ok(ch) => {
                             let mut o = lua::run_opts(false);
-                            o.modules = vec![("mymod".to_string(), "return {}\n".to_string())];
+                            o.modules = vec![("mymod".to_string(), "return {}\n".to_string()), ("plain".to_string(), "return {}\n".to_string()), ("pkg.sub".to_string(), "return {}\n".to_string())];
                             let rr = luamon::run(&ch, &o);
                             format!("{:?} {:?}", rr.prints, match rr.outcome {
                                 lua::Outcome::Ok => "ok".to_string(),
@@ -384,7 +398,7 @@ impl Check for C20 {
         }
         Finish {
             level: "fault_enumeration",
-            rule: "exhaustive matrix: {run (lua on PATH = luamon CLI), -o FILE, -o -} x {--require mymod.lua, none} x {--no-std, std} x {accepted, rejected, fails <=>, reaches <!>} x (for -o FILE) {FILE absent, present with short old content, present with a larger earlier build result, in a missing directory, in a read-only directory, is a directory}, 3 program variants per cell (hand-written and generated). Oracle per cell: exit status 0 iff compile (and run) succeed and the output is writable; errors printed; FILE byte-equal to the in-process compilation or untouched on failure; -o - stdout byte-equal; exactly one `require \"mymod\"` call, placed after the preamble marker and not after the first emitted statement, executed once; std-free programs behave the same with and without --no-std. Non-trivial & distinct: matrix cells.".into(),
+            rule: "exhaustive matrix: {run (lua on PATH = luamon CLI), -o FILE, -o -} x {no --require, --require mymod.lua, --require pkg.sub (dotted submodule), --require plain} x {--no-std, std} x {accepted, rejected, fails <=>, reaches <!>} x (for -o FILE) {FILE absent, present with short old content, present with a larger earlier build result, in a missing directory, in a read-only directory, is a directory}, 3 program variants per cell (hand-written and generated). Oracle per cell: exit status 0 iff compile (and run) succeed and the output is writable; errors printed; FILE byte-equal to the in-process compilation or untouched on failure; -o - stdout byte-equal; exactly one `require` call naming M (without a trailing .lua), placed after the preamble marker and not after the first emitted statement, executed once; std-free programs behave the same with and without --no-std. Non-trivial & distinct: matrix cells.".into(),
             extra: J::obj().with("matrix_cells", J::Int(cells().len() as i64)),
             assumptions: vec![
                 "the `lua` the driver spawns is the luamon CLI (no real Lua in the sandbox); when running as root a read-only directory is writable, that column then expects success".into(),
